@@ -216,8 +216,16 @@ theorem validArg_prim {v : JV} (hv : ValidArg v) : v = .null ∨ ∃ pr, unmarsh
 def ArgsValid (p : Props) (a : Args) : Prop :=
   ∀ b ∈ bindings p, ∀ v, a.lookup b.path = some v → ValidArg v
 
+/-- Every bound parameter that is present is `null` or decodes (`unmarshalPrimitive`) to a string, a boolean or an integer
+of the interoperable range — what `ArgsValid` guarantees, for any spelling of the number (`5`, `5.0`, `5e0`). -/
+def ArgsPrim (p : Props) (a : Args) : Prop :=
+  ∀ b ∈ bindings p, ∀ v, a.lookup b.path = some v → v = .null ∨ ∃ pr, unmarshalPrimitive v = some pr
+
+theorem argsValid_prim {p : Props} {a : Args} (h : ArgsValid p a) : ArgsPrim p a :=
+  fun b hb v hv => validArg_prim (h b hb v hv)
+
 theorem genValue_checks (c : B64) (hc : c.Lawful) (p : Props) (a : Args)
-    (ha : ArgsValid p a) (h : ParamHdrs)
+    (ha : ArgsPrim p a) (h : ParamHdrs)
     (hget : ∀ b ∈ bindings p, h.get b.header = (match genValue c a b with | some v => v | none => []))
     (b : Binding) (hb : b ∈ bindings p) : checkBinding c a h b = none := by
   rw [checkBinding_none_iff]
@@ -227,7 +235,7 @@ theorem genValue_checks (c : B64) (hc : c.Lawful) (p : Props) (a : Args)
   cases hl : a.lookup b.path with
   | none => simpa [hl] using hg
   | some v =>
-    rcases validArg_prim (ha b hb v hl) with hnull | ⟨pr, hpr⟩
+    rcases ha b hb v hl with hnull | ⟨pr, hpr⟩
     · subst hnull; simpa [hl] using hg
     · have hv' : v ≠ .null := by
         intro h0; subst h0; simp [unmarshalPrimitive] at hpr
@@ -251,9 +259,9 @@ theorem genValue_checks (c : B64) (hc : c.Lawful) (p : Props) (a : Args)
                 obtain ⟨r1, r2⟩ := unmarshalPrimitive_int_range hpr
                 exact primitiveEqual_refl_on_safe_ints n r1 r2
 
-/-- The param headers the client generates pass the server's `validateParamHeaders`. -/
-theorem generated_params_accepted (c : B64) (hc : c.Lawful) (p : Props) (a : Args)
-    (hv : validateAnnotations p = true) (ha : ArgsValid p a) :
+/-- The param headers the client generates pass the server's `validateParamHeaders` (arguments: any spelling). -/
+theorem generated_params_accepted_prim (c : B64) (hc : c.Lawful) (p : Props) (a : Args)
+    (hv : validateAnnotations p = true) (ha : ArgsPrim p a) :
     validateParamHeaders c p a (generateParamHeaders c p a) = none := by
   unfold validateParamHeaders
   cases a with
@@ -273,6 +281,12 @@ theorem generated_params_accepted (c : B64) (hc : c.Lawful) (p : Props) (a : Arg
     intro b' hb'
     rw [fold_get_mem c (.obj f) (bindings p) [] (bindings_distinct p hv) b' hb']
     cases genValue c (.obj f) b' <;> simp [ParamHdrs.get]
+
+/-- The param headers the client generates pass the server's `validateParamHeaders`. -/
+theorem generated_params_accepted (c : B64) (hc : c.Lawful) (p : Props) (a : Args)
+    (hv : validateAnnotations p = true) (ha : ArgsValid p a) :
+    validateParamHeaders c p a (generateParamHeaders c p a) = none :=
+  generated_params_accepted_prim c hc p a hv (argsValid_prim ha)
 
 /-- **client_server_agree.** For every base64 codec with `dec (enc s) = some s`, every protocol version, every tool
 whose annotations pass `validateParamHeaderAnnotations` (annotations at any depth), and every request whose method is
